@@ -149,10 +149,7 @@ func init() {
 			if enc == "ERROR" {
 				return "enc=ERROR"
 			}
-			dec := "err"
-			if r, err := bscript.DecodeBIP276(enc); err == nil {
-				dec = "ok:" + showBip(r)
-			}
+			dec := decodeWithHistory(enc)
 			valid := "n/a"
 			if pfx == "bitcoin-script" {
 				ok, err := bscript.ValidateAddress(enc)
@@ -164,16 +161,38 @@ func init() {
 	executors["C17.dec"] = func(a []string) string {
 		txt := hexStr(a[0])
 		return q(func() string {
-			dec := "err"
-			if r, err := bscript.DecodeBIP276(txt); err == nil {
-				dec = "ok:" + showBip(r)
-			}
+			dec := decodeWithHistory(txt)
 			ok, err := bscript.ValidateAddress(txt)
 			return fmt.Sprintf("dec=%s valid=%s", dec, b01(ok && err == nil))
 		})
 	}
 	generators["C15"] = genC15
 	generators["C17"] = genC17
+}
+
+// decodeWithHistory decodes a text the way a long-running caller meets it: validated before, decoded, the result's bytes
+// reused by the caller for something else, decoded again.  Every decode must give the same answer.
+func decodeWithHistory(txt string) string {
+	one := func() (string, *bscript.BIP276) {
+		r, err := bscript.DecodeBIP276(txt)
+		if err != nil {
+			return "err", nil
+		}
+		return "ok:" + showBip(r), r
+	}
+	_, _ = bscript.ValidateAddress(txt)
+	first, r := one()
+	if r != nil {
+		for i := range r.Data {
+			r.Data[i] ^= 0xff // the caller owns what it was given
+		}
+	}
+	_, _ = bscript.ValidateAddress(txt)
+	second, _ := one()
+	if second != first {
+		return "unstable:" + first + "|then|" + second
+	}
+	return first
 }
 
 func showBip(r *bscript.BIP276) string {
